@@ -209,6 +209,65 @@ def body_concat(case, ctx):
         unchanged(x, d, "concatenate-part")
 
 
+def body_sequence(case, ctx):
+    """several operations on ONE encoded array (and a second one sharing nothing with it): every result equals numpy on the
+    decoded operand and the operands stay unchanged - state leaking between calls or objects shows up here"""
+    a = build(case["dta"], case["n"], case["ca"], case["va"])
+    b = build(case["dtb"], case["n"], case["cb"], case["vb"])
+    x, y = rl.encode(a), rl.encode(b)
+    da, db = rl.decode(x), rl.decode(y)
+    ctx.label("dta:" + case["dta"], "dtb:" + case["dtb"], "ops:%d" % len(case["ops"]))
+    ctx.nt(rl.n_runs(da) >= 2 and len(case["ops"]) >= 2)
+    n = len(da)
+    with np.errstate(all="ignore"):
+        for k, op in enumerate(case["ops"]):
+            ctx.label("seq:" + op[0])
+            info = dict(step=k, op=op, before=case["ops"][:k])
+            if op[0] == "binary":
+                e = lib(apply, op[1], "ufunc", da, db)
+                g = lib(apply, op[1], "ufunc", x, y)
+                check_result(g, e, op[1], "seq-rl-rl", True, **info)
+            elif op[0] == "scalar":
+                e = lib(apply, op[1], "ufunc", da, op[2])
+                g = lib(apply, op[1], "ufunc", x, op[2])
+                check_result(g, e, op[1], "seq-rl-scalar", False, **info)
+            elif op[0] == "reduce":
+                e = getattr(np, op[1])(da)
+                g = lib(lambda: getattr(x, op[1])())
+                if not g.ok or not same_scalar(float(np.asarray(g.value).item()), float(np.asarray(e).item())):
+                    raise Violation("seq-reduce", expected=jsonable(e), got=g.brief(), **info)
+            elif op[0] == "slice":
+                s_ = slice(op[1], op[2], op[3])
+                rl.expect_rl(lib(lambda: x[s_]), da[s_], "seq-slice", strict=op[3] is not None and abs(op[3]) != 1, **info)
+            elif op[0] == "index":
+                i = op[1] % (2 * n) - n
+                g = lib(lambda: x[i])
+                if not g.ok or not same_scalar(np.asarray(g.value).item(), da[i].item()):
+                    raise Violation("seq-index", i=i, expected=jsonable(da[i]), got=g.brief(), **info)
+            elif op[0] == "concat":
+                rl.expect_rl(lib(lambda: np.concatenate([x, y, x])), np.concatenate([da, db, da]), "seq-concatenate", strict=False, **info)
+            elif op[0] == "decode":
+                g = lib(lambda: np.asarray(x))
+                if not g.ok or not arrays_equal(g.value, da):
+                    raise Violation("seq-asarray", got=g.brief(), **info)
+            unchanged(x, da, "seq-a-after-%s" % op[0])
+            unchanged(y, db, "seq-b-after-%s" % op[0])
+
+
+@st.composite
+def sequence_case(draw, tier):
+    n = draw(st.integers(1, 16))
+    dta, dtb = draw(st.sampled_from(["int8", "int64", "uint8", "bool", "float64"])), draw(st.sampled_from(["int8", "int64", "uint8", "bool", "float64"]))
+    ca, va = draw(operand(tier, dta, n, specials=False))
+    cb, vb = draw(operand(tier, dtb, n, specials=False))
+    op = st.one_of(st.tuples(st.just("binary"), st.sampled_from(["add", "maximum", "less", "multiply", "subtract"])).map(list),
+                   st.tuples(st.just("scalar"), st.sampled_from(["add", "multiply", "greater", "floor_divide"]), st.sampled_from([0, 1, 2, 3])).map(list),
+                   st.tuples(st.just("reduce"), st.sampled_from(["sum", "any", "all", "max"])).map(list),
+                   st.tuples(st.just("slice"), gen.bound(8), gen.bound(8), st.sampled_from([None, 1, -1, 2, -2, 3])).map(list),
+                   st.tuples(st.just("index"), st.integers(0, 1000)).map(list), st.just(["concat"]), st.just(["decode"]))
+    return {"n": n, "dta": dta, "ca": ca, "va": va, "dtb": dtb, "cb": cb, "vb": vb, "ops": draw(st.lists(op, min_size=2, max_size=6))}
+
+
 DTS = gen.C04_DT
 
 
@@ -311,6 +370,9 @@ SUBCHECKS = [
              doc="binary ufunc / operator of two encoded arrays with unrelated run boundaries, all dtype pairs"),
     SubCheck("rl-scalar", body_scalar, scalar_case, quick=7000, thorough=500000, shards_quick=4,
              doc="encoded array with a Python / numpy / 0-d scalar on either side (NEP 50 dtype, numpy refusals)"),
+    SubCheck("op-sequence", body_sequence, sequence_case, quick=4000, thorough=250000, shards_quick=3,
+             doc="2-6 operations (rl-rl / scalar ufunc, reduction, slice, index, concatenate, decode) on the SAME two encoded arrays, "
+                 "each compared with numpy on the decoded operands; operands unchanged after every step"),
     SubCheck("unary", body_unary, unary_case, quick=3000, thorough=200000, shards_quick=1, doc="unary ufuncs / operators"),
     SubCheck("reductions", body_reduce, reduce_case, quick=4000, thorough=300000, shards_quick=2,
              doc="sum / any / all / mean (np.<f> and method), max() equal numpy on the decoded array"),
